@@ -1,5 +1,6 @@
 #include <dsplib/agc.h>
 #include <dsplib/math.h>
+#include <algorithm>
 #include <cmath>
 
 #include "ma-filter.h"
@@ -24,7 +25,8 @@ static Agc::Result<T> _process(AgcImpl& agc, const base_array<T>& x) {
     base_array<T> out(nx);
     arr_real gain(nx);
     for (int i = 0; i < nx; ++i) {
-        const auto input_power = agc.maflt(abs2(x[i])) + dsplib::eps();
+        //the running sum of the moving average can leave a tiny negative residue after a loud burst followed by silence
+        const auto input_power = std::max(agc.maflt(abs2(x[i])), real_t(0)) + dsplib::eps();
         const real_t err = agc.target - (std::log(input_power) + (2 * agc.gain));
         if (err > 1) {
             agc.gain += agc.trise * err;
